@@ -193,6 +193,11 @@ func init() {
 		Assumptions: []string{seqAssumption, "the combination non-exit error + allow_failure + fail-fast is a genuine race between the cancel goroutine and the scheduler loop: the oracle accepts both orders there (three-valued verdict)"},
 		Cases:       func(t string) int { return tierN(t, 1200, 30000) },
 		RunCase: func(c *CaseCtx) *CaseResult {
+			if c.Idx%12 == 11 {
+				// schedules: tasks of several jobs finish concurrently, by themselves, with random failures; verdict soundness
+				// (plain success only if every task ended ok / allowed failure in the runner) judged offline over the log
+				return linCase(c, "C08")
+			}
 			o := graphOpts(c.Idx+1, c.Tier)
 			o.FailProb = 0.4
 			o.Pipe.AllowFailureProb = 0.35
